@@ -1,18 +1,15 @@
 #!/bin/bash
 # tools/rerun_all_seeds.sh [name-glob]  — re-runs every seeded change against the quick check of its own
-# property (applies to /repo, reverts).  Output: work/rerun-seeds.tsv  (name, check, exit code)
+# property (plus the checks listed in EXTRA below for changes whose own property is not where they
+# show), through tools/run_seed.sh (apply to /repo, run, revert).  Results are appended to
+# work/seed-results.tsv; tools/gen_seed_meta.py merges them into seeded/results.tsv.
 set -u
 G="${1:-*}"
-OUT=/verif/work/rerun-seeds.tsv
-: > "$OUT"
+declare -A EXTRA=( [C02-r2m1]="C07" [C04-r2m3]="C07" [C01-r3m1]="C07 C02" [C01-r3m3]="C07 C02" [C11-r4m3]="C07" [C20-r4m2]="C07" )
 for d in /verif/seeded/$G/; do
   n=$(basename "$d")
   [ -f "$d/patch.diff" ] || continue
-  p=$(python3 -c "import json;print(json.load(open('$d/meta.json'))['breaks_property'])" 2>/dev/null || echo "${n%%-*}")
-  if [ -n "$(git -C /repo status --porcelain --untracked-files=no)" ]; then echo "/repo not clean"; exit 2; fi
-  git -C /repo apply "$d/patch.diff" || { echo "$n apply-failed" >> "$OUT"; continue; }
-  out=$(/verif/bin/check $p quick 2>&1); rc=$?
-  git -C /repo checkout -- .
-  printf "%s\t%s\t%s\t%s\n" "$n" "$p" "$rc" "$(echo "$out" | grep -E '^  stage=' | head -1 | cut -c1-200)" >> "$OUT"
+  p="${n%%-*}"
+  /verif/tools/run_seed.sh "$n" $p ${EXTRA[$n]:-} | grep rc=
 done
-echo done >> "$OUT"
+echo ALL-DONE
